@@ -87,6 +87,7 @@ SPEC = dict(
         "TLS/TCP are not modelled (net.Pipe); the protocol-level handshake (MsgReplicateSync) is C26's subject — sessions here start from an agreed nonce",
     ],
     assumptions=[
+        "callers of wal.Writer.AppendRaw do not write to the payload slice after the call (the hook forwards that very slice and the Sender only queues it); for AppendRawWithMeta the freshness of the envelope is a regenerated fact (C24_payload_ownership_tied) and bursts behind a stalled reader are exercised with payload bytes copied at append time",
         "one reader connection at a time per sender (the broadcast loop treats readers independently)",
         "entries distributed while no reader is connected are not re-sent (the code has no catch-up path); the property is read as 'while a reader stays connected'",
         "payloads are non-empty for the checkpoint theorem (the running hash is over the concatenation of payloads, an empty payload is invisible to it; wal payloads are msgpack/envelopes, never empty)",
